@@ -177,7 +177,15 @@ def blank_ident(P, R):
         if s.ev['k'] == 'bitset' and s.ev.get('bit') == 'IAUTH_GOT_IDENT' and core.is_req_flags(s.ev.get('set')):
             gs = u.guards(s.bid)
             if any(is_var(g[0], ident_p) and g[1] == '!=' for g in gs):
-                continue      # an ident was delivered
+                # an ident was delivered - and it is one: `<id> u :` hands over the empty string, which names nobody (the
+                # user name sent on to a login-with-address service would be an empty word, shifting account and password)
+                def first_byte(l):
+                    return isinstance(l, dict) and ((l.get('k') == 'idx' and is_var(l.get('base'), ident_p) and const_of(l.get('index')) == 0) or
+                                                    (l.get('k') == 'un' and l.get('op') == '*' and is_var(l.get('e'), ident_p)))
+                n += 1
+                R.ob('C03.GRD.3', any(first_byte(g[0]) and g[1] == '!=' and const_of(g[2]) == 0 for g in gs), s,
+                     'a delivered ident makes the user name known only if it is not empty (its first byte is tested)', key='blank-ident:empty-word')
+                continue
             n += 1
             ok = False
             seen = []
